@@ -295,6 +295,7 @@ type collector struct {
 
 type agg struct {
 	n        int
+	rk, size int
 	what     string
 	replay   any
 	obs, exp string
@@ -303,16 +304,30 @@ type agg struct {
 var col = &collector{m: map[string]*agg{}}
 
 func (c *collector) Report(sig, what string, replay any, observed, expected string) {
+	c.Lazy(sig, rank(what), len(what), func() (string, any, string, string) { return what, replay, observed, expected })
+}
+
+// Lazy counts one case for sig; the witness text is only built when the case could become the
+// smallest one seen so far (order: object route first, then size, then text).
+func (c *collector) Lazy(sig string, rk, size int, mk func() (what string, replay any, obs, exp string)) {
 	c.mu.Lock()
 	defer c.mu.Unlock()
 	a := c.m[sig]
 	if a == nil {
-		a = &agg{what: what, replay: replay, obs: observed, exp: expected}
+		a = &agg{rk: rk, size: size}
+		a.what, a.replay, a.obs, a.exp = mk()
+		a.n = 1
 		c.m[sig] = a
-	} else if rank(what) < rank(a.what) || (rank(what) == rank(a.what) && (len(what) < len(a.what) || (len(what) == len(a.what) && what < a.what))) {
-		a.what, a.replay, a.obs, a.exp = what, replay, observed, expected
+		return
 	}
 	a.n++
+	if rk > a.rk || (rk == a.rk && size > a.size) {
+		return
+	}
+	what, replay, obs, exp := mk()
+	if rk < a.rk || size < a.size || what < a.what {
+		a.rk, a.size, a.what, a.replay, a.obs, a.exp = rk, size, what, replay, obs, exp
+	}
 }
 
 // rank prefers witnesses seen through the object API (they carry risor's error text).
